@@ -243,6 +243,7 @@ def extract_items(path):
                 pending_test = False
                 i = bc + 1; continue
             owner = impl_stack[-1][1] if impl_stack else None
+            trait = None
             if owner:
                 trait, ty = owner
                 key = '%s::%s' % (ty, name)
@@ -260,6 +261,7 @@ def extract_items(path):
                     cur = []
                 else: cur.append(x)
             items.append(Item(key, fname, params, toks[k + 1:bc]))
+            items[-1].trait = trait
             i = bc + 1; continue
         pending_test = False if (t.k == 'id' and t.v in ('struct', 'enum', 'use', 'mod', 'pub') and False) else pending_test
         i += 1
@@ -2149,12 +2151,15 @@ def pinned_items(repo):
         path = os.path.join(repo, 'src', rel)
         if not os.path.exists(path):
             continue
-        seen = {}
+        # the key names the item independently of its position in the file (items may be reordered freely): file,
+        # trait (for trait impls), type, function; items that still share a key are pinned as a sorted group
+        groups = {}
         for it in extract_items(path):
-            k = '%s::%s' % (rel, it.key)
-            seen[k] = seen.get(k, 0) + 1
-            if seen[k] > 1: k += '#%d' % seen[k]
-            out[k] = (hashlib.sha1(text_of(it.body).encode()).hexdigest(), 'src/' + rel)
+            tr = getattr(it, 'trait', None)
+            k = '%s::%s%s' % (rel, (tr + ' for ') if tr else '', it.key)
+            groups.setdefault(k, []).append(hashlib.sha1(text_of(it.body).encode()).hexdigest())
+        for k, hs in groups.items():
+            out[k] = (hs[0] if len(hs) == 1 else hashlib.sha1(' '.join(sorted(hs)).encode()).hexdigest(), 'src/' + rel)
         # the constant tables of permission_flags.rs and the enum/struct declarations are data, not functions
         if rel in ('permission_flags.rs', 'ast.rs', 'scheme/error.rs', 'find_parser/error.rs', 'lib.rs', 'scheme/manager.rs', 'scheme/mod.rs'):
             toks = tokenize(open(path).read())
